@@ -64,6 +64,7 @@ def crun (s : CSt) : List CLabel → Option CSt
 inductive WPC where
   | idle          -- not writing
   | locked        -- queue writer: holds w.mu, about to call WriteFn
+  | loaded        -- direct write: holds writeMu, has loaded the encoder pointer (`compression.Load()`)
   | encoding      -- inside Encode (holds writeMu, and w.mu when it is the queue writer)
 deriving Repr, DecidableEq, Inhabited
 
@@ -90,11 +91,11 @@ deriving Repr, DecidableEq, Inhabited
 
 inductive ELabel where
   | qLock | qBegin | qEnd
-  | dBegin | dEnd
+  | dLoad | dBegin | dEnd
   | closeWriter | closeEncoder | closeTransport
 deriving Repr, DecidableEq, Inhabited
 
-def writeMuFree (s : ESt) : Bool := s.qw != .encoding && s.dw != .encoding
+def writeMuFree (s : ESt) : Bool := s.qw != .encoding && s.dw != .encoding && s.dw != .loaded
 
 def estep (s : ESt) : ELabel → Option ESt
   | .qLock =>        -- take w.mu; a closed writer has nothing to write
@@ -105,8 +106,13 @@ def estep (s : ESt) : ELabel → Option ESt
                     violated := s.violated || s.closes > 0 }
     else none
   | .qEnd => if s.qw = .encoding then some { s with qw := .idle, inFlight := s.inFlight - 1 } else none
-  | .dBegin =>       -- direct write: only with ReplyWithoutQueue; no w.mu
+  | .dLoad =>        -- direct write: only with ReplyWithoutQueue; no w.mu; transport not yet closed;
+                     -- `writeData` loads the encoder pointer …
     if s.rwq && s.dw = .idle && writeMuFree s && s.installed && s.closer != .done then
+      some { s with dw := .loaded }
+    else none
+  | .dBegin =>       -- … and calls Encode on what it loaded (the pointer may have been swapped out since)
+    if s.dw = .loaded then
       some { s with dw := .encoding, encodes := s.encodes + 1, inFlight := s.inFlight + 1,
                     violated := s.violated || s.closes > 0 }
     else none
